@@ -385,6 +385,9 @@ pub enum ReadyScript {
     /// every instance (the original and each clone) becomes ready this many microseconds of virtual
     /// time after it was created (a connection that has to warm up / be checked out of a pool)
     WarmUp(u64),
+    /// every instance is not ready while the virtual clock is in [from, to) microseconds (a backend
+    /// that stalls for a while: connection pool exhausted, GC pause), ready otherwise
+    Blackout(u64, u64),
 }
 
 pub struct Probe {
@@ -526,6 +529,23 @@ impl tower::Service<Req> for Probe {
                         }
                         Poll::Pending => (Poll::Pending, 1),
                     }
+                }
+            }
+            ReadyScript::Blackout(from, to) => {
+                let now = self.w.now();
+                if now >= from && now < to {
+                    let t0 = self.w.t0();
+                    let sl = self.warm.get_or_insert_with(|| Box::pin(tokio::time::sleep_until(t0 + std::time::Duration::from_micros(to))));
+                    match sl.as_mut().poll(cx) {
+                        Poll::Ready(()) => {
+                            self.warm = None;
+                            (Poll::Ready(Ok(())), 0)
+                        }
+                        Poll::Pending => (Poll::Pending, 1),
+                    }
+                } else {
+                    self.warm = None;
+                    (Poll::Ready(Ok(())), 0)
                 }
             }
             ReadyScript::FailWhileBusy(c) => {
